@@ -146,6 +146,8 @@ func c10mkAnswer(req string) string {
 		return strings.Join(out, " ")
 	case len(f) == 3 && f[0] == "one": // one <section> <hex>: used to find out which layer hangs
 		return f[1] + "=" + c10mkSection(f[1], unhx(f[2]))
+	case len(f) == 2 && f[0] == "ml":
+		return c10mlImplAnswer(unhx(f[1]))
 	case len(f) == 3 && f[0] == "ra":
 		a, p := pkglint.VerifGetRawValueAlign(unhx(f[1]), unhx(f[2]))
 		if p != "" {
@@ -1332,6 +1334,12 @@ func runC10mk(ctx *Ctx) *Result {
 	if res.Broken != "" {
 		return res
 	}
+	if os.Getenv("VERIF_C10MK_LAYERS") == "ml" { // development aid for mutation trials: only the multi-line layer (no floors, evidence says so)
+		c10mlRun(ctx, res, rng.Fork(), &c10mkGen{rng: rng.Fork(), kinds: map[string]int{}}, j.limit)
+		res.Count("only_layer_ml_requested_by_environment", 1)
+		res.Rule = "DEVELOPMENT RUN, multi-line layer only: " + res.Rule
+		return res
+	}
 
 	// corpus: inputs that once mattered
 	corpus := []string{"A.\\#=v", " \t#x", "$\\#=v", "${a:C\\x\\#\\g\\}=v", "${A:S,a,b}=v # ,}", "A.\\#\\#b${c}\\# =v", "X= ${VAR:!echo $$x!}", "${A:!$", "${A:!a$$!}", "${A:x${A:x${A:x${A:x}}}}", "a$", "$", "$$", "${", "$(", "${}", "${:}", "${A:S}",
@@ -1407,6 +1415,11 @@ func runC10mk(ctx *Ctx) *Result {
 		c10mkRawAlign(ctx, res, rng.Fork(), j.limit, 3, 20000)
 	}
 
+	// matchVarassign on logical lines made of several raw lines (harness/c10ml.go)
+	if res.Broken == "" {
+		c10mlRun(ctx, res, rng.Fork(), g, j.limit)
+	}
+
 	if res.Broken == "" {
 		c10mkCrossCheck(ctx, res, j.cross)
 	}
@@ -1418,7 +1431,9 @@ func runC10mk(ctx *Ctx) *Result {
 	if res.Broken == "" {
 		floors := map[string]int{"mt_with_expression": 20000, "mt_with_rest": 1000, "uc_with_comment": 20000, "uc_input_with_escaped_hash": 5000,
 			"varassign_matched": 10000, "varassign_matched_commented": 300, "varalign_initial_ok": 10000, "varalign_with_continuation": 300,
-			"expr_found": 20000, "rawalign_ok": 500, "rawalign_assert": 500}
+			"expr_found": 20000, "rawalign_ok": 500, "rawalign_assert": 500,
+			"ml_lines_multiline": 50000, "ml_multiline_matched": 2000, "ml_multiline_matched_commented": 100, "ml_multiline_rejected_by_guard": 1000,
+			"ml_multiline_equals_only_in_continuation": 1000, "ml_multiline_break_inside_expression": 300, "ml_three_raw_lines": 5000}
 		for _, k := range []string{"simple", "ts", "D/U", "M/N", "S/C", "!cmd!", "@loop@", "[index]", "?:", "::=", "sysv", "indirect", "!text!", "empty", "invalid"} {
 			floors["grammar_kind_"+k] = 300
 		}
@@ -1441,7 +1456,7 @@ func runC10mk(ctx *Ctx) *Result {
 	res.Assumptions = []string{
 		"bytes: the exhaustive runs use the property's ASCII alphabet; random strings add other printable ASCII, about 1% control bytes and 1% bytes >= 0x80",
 		"unescapeComment, split and matchVarassign are applied to texts without newline (a Line.Text never contains one); with a newline the Go code asserts, and so does the model",
-		"matchVarassign is driven as MkLineParser.Parse does for a logical line that consists of one raw line",
+		"matchVarassign is driven as MkLineParser.Parse does (split, tokenize, matchVarassign; no directive/shell-command dispatch) on logical lines of one raw line, and, in the ml layer, on every logical line that convertToLogicalLines builds from a file text",
 	}
 	return res
 }
@@ -1456,6 +1471,9 @@ func replayC10mk(ctx *Ctx, rep map[string]any) *Result {
 		if rep["kind"] == "classes" {
 			j.validateClasses(3)
 		}
+	case "ml":
+		in, _ := rep["input"].(string)
+		c10mlBatch(ctx, res, []c10mlCase{{unhx(in), "replay"}}, j.limit, nil)
 	case "ra":
 		raw, _ := rep["raw"].(string)
 		parsed, _ := rep["parsed"].(string)
